@@ -385,7 +385,7 @@ Lemma subst_terms_value w rho : wagrees w rho -> forall l ts c0 nr,
 Proof.
   intros Hw. induction l as [|[k1 v1] r IHl]; intros ts c0 nr H; cbn [subst_terms] in H.
   - inversion H; subst. rewrite !lsum_nil. lia.
-  - destruct (expand sub_fuel w [] k1 v1) as [[t1 c1] n1] eqn:E1.
+  - destruct (expand (sub_fuel w) w [] k1 v1) as [[t1 c1] n1] eqn:E1.
     destruct (subst_terms w r) as [[t2 c2] n2] eqn:E2. inversion H; subst.
     rewrite lsum_app, lsum_cons. pose proof (expand_value _ w rho Hw _ _ _ _ _ _ E1).
     specialize (IHl _ _ _ eq_refl). lia.
@@ -405,18 +405,21 @@ Proof.
 Qed.
 
 (* ---------- completeness of the substitution: nothing that is known is left in the result ----------
-   Hypotheses: no variable is being computed (awaiting = []) and "is defined through" is well founded
-   (a rank that decreases from a settled variable to everything its value mentions).  Then every
-   variable of the substituted polynomial is NOT settled: a quantity that is known, or that is denoted
-   by another variable, never survives, so the same quantity is never denoted by two variables. *)
+   Hypothesis: "is defined through" is well founded (a rank that decreases from a settled variable to
+   everything its value mentions).  Variables may be in the middle of being computed (awaiting): that
+   is exactly the situation in which the link base is solved.  Every variable of the substituted
+   polynomial is then [residual]: not settled, or being computed, or the value (one step, as
+   get_current_best_estimate gives it) of a variable that is being computed. *)
 Section Complete.
 Variable w : world.
 Variable rk : var -> nat.
-Hypothesis no_awaiting : awaiting w = [].
 Hypothesis rk_var : forall x y, lookupv (settled w) x = Some (VVar y) -> (rk y < rk x)%nat.
 Hypothesis rk_poly : forall x p y, lookupv (settled w) x = Some (VPoly p) -> In y (vars p) -> (rk y < rk x)%nat.
 
 Definition unsettled (z : var) : Prop := lookupv (settled w) z = None.
+Definition residual (z : var) : Prop :=
+  unsettled z \/ memv z (awaiting w) = true \/
+  exists y, memv y (awaiting w) = true /\ lookupv (settled w) y = Some (VVar z).
 
 Lemma memv_In x l : memv x l = true -> In x l.
 Proof.
@@ -431,86 +434,107 @@ Qed.
 Definition vrank_ok (n : nat) (v : value) : Prop :=
   match v with VVar y => (rk y < n)%nat | VPoly p => forall z, In z (vars p) -> (rk z < n)%nat end.
 
+Lemma settled_rank x v : lookupv (settled w) x = Some v -> vrank_ok (rk x) v.
+Proof.
+  intros E. destruct v as [q|y]; simpl; [intros z Hz; exact (rk_poly x q z E Hz)|exact (rk_var x y E)].
+Qed.
+
+(* where a chain stops: at a polynomial, or at a variable that is unsettled or being computed *)
 Lemma follow_complete : forall f n exp v b e,
   (n <= f)%nat -> vrank_ok n v -> (forall x, In x exp -> (n <= rk x)%nat) ->
   follow f w exp v = (b, e) ->
   match e with
   | EPoly p => forall z, In z (vars p) -> (rk z < n)%nat
-  | EVar y => (rk y < n)%nat /\ unsettled y
+  | EVar y => (rk y < n)%nat /\ (unsettled y \/ memv y (awaiting w) = true)
   end.
 Proof.
   induction f as [|f IH]; intros n exp v b e Hf Hv Hexp H; destruct v as [p|y]; simpl in H, Hv.
   - inversion H; subst. exact Hv.
   - lia.
   - inversion H; subst. exact Hv.
-  - rewrite no_awaiting in H. simpl in H. rewrite (memv_high y exp n Hv Hexp) in H.
+  - rewrite (memv_high y exp n Hv Hexp), orb_false_r in H.
+    destruct (memv y (awaiting w)) eqn:Ea; [inversion H; subst; auto|].
     destruct (lookupv (settled w) y) as [v'|] eqn:E.
-    + assert (Hr : vrank_ok (rk y) v').
-      { destruct v' as [q|z]; simpl; [intros z Hz; exact (rk_poly y q z E Hz)|exact (rk_var y z E)]. }
-      assert (Hexp' : forall x, In x (y :: exp) -> (rk y <= rk x)%nat).
+    + assert (Hexp' : forall x, In x (y :: exp) -> (rk y <= rk x)%nat).
       { intros x [Hx|Hx]; [subst; lia|specialize (Hexp x Hx); lia]. }
-      specialize (IH (rk y) (y :: exp) v' b e ltac:(lia) Hr Hexp' H).
+      specialize (IH (rk y) (y :: exp) v' b e ltac:(lia) (settled_rank y v' E) Hexp' H).
       destruct e as [y'|q].
       * destruct IH; split; [lia|assumption].
       * intros z Hz. specialize (IH z Hz). lia.
-    + inversion H; subst. split; assumption.
+    + inversion H; subst. split; [assumption|left; assumption].
 Qed.
 
 Lemma expand_complete : forall f exp k c ts c0 nr,
   (rk k < f)%nat -> (forall x, In x exp -> (rk k < rk x)%nat) ->
   expand f w exp k c = (ts, c0, nr) ->
-  forall z cz, In (z, cz) ts -> unsettled z.
+  forall z cz, In (z, cz) ts -> residual z.
 Proof.
   induction f as [|f IH]; intros exp k c ts c0 nr Hf Hexp H z cz Hin; [lia|].
   simpl in H.
   assert (Hm : memv k exp = false).
   { destruct (memv k exp) eqn:E; [|reflexivity]. apply memv_In in E. specialize (Hexp k E). lia. }
-  rewrite Hm in H. unfold try_wait in H. rewrite no_awaiting in H. simpl in H.
-  destruct (lookupv (settled w) k) as [v|] eqn:Ek.
-  - destruct (follow f w exp v) as [computed e] eqn:Ef.
-    assert (Hr : vrank_ok (rk k) v).
-    { destruct v as [q|y]; simpl; [intros y Hy; exact (rk_poly k q y Ek Hy)|exact (rk_var k y Ek)]. }
-    assert (Hexp' : forall x, In x exp -> (rk k <= rk x)%nat) by (intros x Hx; specialize (Hexp x Hx); lia).
-    pose proof (follow_complete f (rk k) exp v computed e ltac:(lia) Hr Hexp' Ef) as Hfc.
-    destruct e as [y|p]; simpl in H.
-    + destruct Hfc as [_ Hu]. unfold unsettled in Hu. rewrite Hu in H.
-      inversion H; subst. destruct Hin as [Hin|[]]. inversion Hin; subst. exact Hu.
-    + set (go := fix go (l : list (var * Z)) : list (var * Z) * Z * list var :=
+  rewrite Hm in H.
+  (* where the chain stops: a polynomial below rk k, or a variable at most rk k that is unsettled or awaited *)
+  destruct (match try_wait w k with None => (false, EVar k) | Some v => follow f w exp v end) as [computed e] eqn:Ef.
+  assert (Hfc : match e with
+                | EPoly p => forall z, In z (vars p) -> (rk z < rk k)%nat
+                | EVar y => (rk y <= rk k)%nat /\ (unsettled y \/ memv y (awaiting w) = true)
+                end).
+  { unfold try_wait in Ef. destruct (memv k (awaiting w)) eqn:Ea.
+    - inversion Ef; subst. split; [lia|right; assumption].
+    - destruct (lookupv (settled w) k) as [v|] eqn:Ek.
+      + assert (Hexp' : forall x, In x exp -> (rk k <= rk x)%nat) by (intros x Hx; specialize (Hexp x Hx); lia).
+        pose proof (follow_complete f (rk k) exp v computed e ltac:(lia) (settled_rank k v Ek) Hexp' Ef) as G.
+        destruct e as [y|p]; [destruct G; split; [lia|assumption]|exact G].
+      + inversion Ef; subst. split; [lia|left; assumption]. }
+  assert (Hrec : forall p, (forall z, In z (vars p) -> (rk z < rk k)%nat) ->
+           forall ts' c' n',
+           (fix go (l : list (var * Z)) : list (var * Z) * Z * list var :=
                match l with
                | [] => ([], 0, [])
                | (k1, v1) :: r =>
                    let '(t1, c1, n1) := expand f w (k :: exp) k1 (v1 * c) in
                    let '(t2, c2, n2) := go r in
                    (t1 ++ t2, c1 + c2, n1 ++ n2)
-               end) in *.
-      assert (G : forall l ts' c' n', (forall y, In y (map fst l) -> (rk y < rk k)%nat) ->
-                  go l = (ts', c', n') -> forall z' cz', In (z', cz') ts' -> unsettled z').
-      { induction l as [|[k1 v1] r IHl]; intros ts' c' n' Hl Hg z' cz' Hin'; simpl in Hg.
-        - inversion Hg; subst. destruct Hin'.
-        - destruct (expand f w (k :: exp) k1 (v1 * c)) as [[t1 c1] n1] eqn:E1.
-          destruct (go r) as [[t2 c2] n2] eqn:E2. inversion Hg; subst.
-          apply in_app_or in Hin'. destruct Hin' as [Hin'|Hin'].
-          + assert (Hk1 : (rk k1 < rk k)%nat) by (apply Hl; left; reflexivity).
-            assert (Hx' : forall x, In x (k :: exp) -> (rk k1 < rk x)%nat).
-            { intros x [Hx|Hx]; [subst; lia|specialize (Hexp x Hx); lia]. }
-            exact (IH (k :: exp) k1 (v1 * c) t1 c1 n1 ltac:(lia) Hx' E1 z' cz' Hin').
-          + exact (IHl t2 c2 n2 (fun y Hy => Hl y (or_intror Hy)) eq_refl z' cz' Hin'). }
-      destruct (go (coeffs p)) as [[ts' c'] n'] eqn:Eg. inversion H; subst.
-      apply (G (coeffs p) _ _ _ Hfc Eg z cz Hin).
-  - simpl in H. rewrite Ek in H. inversion H; subst.
-    destruct Hin as [Hin|[]]. inversion Hin; subst. exact Ek.
+               end) (coeffs p) = (ts', c', n') ->
+           forall z' cz', In (z', cz') ts' -> residual z').
+  { intros p Hp. unfold vars in Hp. induction (coeffs p) as [|[k1 v1] r IHl]; intros ts' c' n' Hg z' cz' Hin'.
+    - inversion Hg; subst. destruct Hin'.
+    - destruct (expand f w (k :: exp) k1 (v1 * c)) as [[t1 c1] n1] eqn:E1.
+      match type of Hg with context [?G r] => destruct (G r) as [[t2 c2] n2] eqn:E2 end.
+      inversion Hg; subst.
+      apply in_app_or in Hin'. destruct Hin' as [Hin'|Hin'].
+      + assert (Hk1 : (rk k1 < rk k)%nat) by (apply Hp; left; reflexivity).
+        assert (Hx' : forall x, In x (k :: exp) -> (rk k1 < rk x)%nat).
+        { intros x [Hx|Hx]; [subst; lia|specialize (Hexp x Hx); lia]. }
+        exact (IH (k :: exp) k1 (v1 * c) t1 c1 n1 ltac:(lia) Hx' E1 z' cz' Hin').
+      + exact (IHl (fun y Hy => Hp y (or_intror Hy)) t2 c2 n2 eq_refl z' cz' Hin'). }
+  destruct e as [y|p]; simpl in H.
+  - destruct Hfc as [Hry Hy].
+    destruct (lookupv (settled w) y) as [[q|z']|] eqn:Ey.
+    + (* y is being computed and settled to a polynomial *)
+      match type of H with context [?G (coeffs q)] => destruct (G (coeffs q)) as [[ts' c'] n'] eqn:Eg end.
+      inversion H; subst.
+      refine (Hrec q _ _ _ _ Eg z cz Hin).
+      intros z0 Hz0. pose proof (rk_poly y q z0 Ey Hz0). lia.
+    + inversion H; subst. destruct Hin as [Hin|[]]. inversion Hin; subst.
+      destruct Hy as [Hy|Hy]; [unfold unsettled in Hy; congruence|].
+      right; right. exists y. split; assumption.
+    + inversion H; subst. destruct Hin as [Hin|[]]. inversion Hin; subst. left. exact Ey.
+  - match type of H with context [?G (coeffs p)] => destruct (G (coeffs p)) as [[ts' c'] n'] eqn:Eg end.
+    inversion H; subst. exact (Hrec p Hfc _ _ _ Eg z cz Hin).
 Qed.
 
 Lemma subst_terms_complete : forall l ts c0 nr,
-  (forall y, In y (map fst l) -> (rk y < sub_fuel)%nat) ->
-  subst_terms w l = (ts, c0, nr) -> forall z cz, In (z, cz) ts -> unsettled z.
+  (forall y, In y (map fst l) -> (rk y < sub_fuel w)%nat) ->
+  subst_terms w l = (ts, c0, nr) -> forall z cz, In (z, cz) ts -> residual z.
 Proof.
   induction l as [|[k1 v1] r IHl]; intros ts c0 nr Hl H z cz Hin; cbn [subst_terms] in H.
   - inversion H; subst. destruct Hin.
-  - destruct (expand sub_fuel w [] k1 v1) as [[t1 c1] n1] eqn:E1.
+  - destruct (expand (sub_fuel w) w [] k1 v1) as [[t1 c1] n1] eqn:E1.
     destruct (subst_terms w r) as [[t2 c2] n2] eqn:E2. inversion H; subst.
     apply in_app_or in Hin. destruct Hin as [Hin|Hin].
-    + exact (expand_complete sub_fuel [] k1 v1 t1 c1 n1 (Hl k1 (or_introl eq_refl)) (fun x (F : In x []) => match F with end) E1 z cz Hin).
+    + exact (expand_complete (sub_fuel w) [] k1 v1 t1 c1 n1 (Hl k1 (or_introl eq_refl)) (fun x (F : In x []) => match F with end) E1 z cz Hin).
     + exact (IHl t2 c2 n2 (fun y Hy => Hl y (or_intror Hy)) eq_refl z cz Hin).
 Qed.
 
@@ -530,12 +554,88 @@ Proof.
 Qed.
 
 Theorem substitute_complete p :
-  (forall y, In y (vars p) -> (rk y < sub_fuel)%nat) ->
-  forall z, In z (vars (fst (substitute w p))) -> unsettled z.
+  (forall y, In y (vars p) -> (rk y < sub_fuel w)%nat) ->
+  forall z, In z (vars (fst (substitute w p))) -> residual z.
 Proof.
   intros Hp z Hz. unfold substitute in Hz.
   destruct (subst_terms w (coeffs p)) as [[ts c0] nr] eqn:E. simpl in Hz.
   apply mk_vars_sub in Hz. destruct Hz as [cz Hin].
   exact (subst_terms_complete (coeffs p) ts c0 nr Hp E z cz Hin).
 Qed.
+
+(* with nothing being computed, [residual] is [unsettled] *)
+Corollary substitute_complete_quiet p : awaiting w = [] ->
+  (forall y, In y (vars p) -> (rk y < sub_fuel w)%nat) ->
+  forall z, In z (vars (fst (substitute w p))) -> unsettled z.
+Proof.
+  intros Ha Hp z Hz. destruct (substitute_complete p Hp z Hz) as [H|[H|[y [H _]]]]; [exact H| |];
+  rewrite Ha in H; discriminate.
+Qed.
 End Complete.
+
+(* ---------- semantic completeness: what cancels in every consistent world cancels symbolically ----------
+   The statement that Props/C12_findings.v refutes for the one-level substitution of the old code holds
+   for the new one (nothing being computed, well-founded definitions): if the polynomial has the same
+   value under EVERY assignment that gives the settled variables the values they are settled to, the
+   substituted polynomial is a constant. *)
+Lemma lsum_agree l rho rho' : (forall z, In z (map fst l) -> rho z = rho' z) -> lsum l rho = lsum l rho'.
+Proof.
+  induction l as [|[k v] r IH]; intros H; [reflexivity|]. rewrite !lsum_cons.
+  rewrite (H k (or_introl eq_refl)), IH; [reflexivity|]. intros z Hz. apply H. right. exact Hz.
+Qed.
+
+Lemma eval_agree p rho rho' : (forall z, In z (vars p) -> rho z = rho' z) -> eval p rho = eval p rho'.
+Proof. intros H. unfold eval. rewrite (lsum_agree _ rho rho' H). reflexivity. Qed.
+
+Section Semantic.
+Variable w : world.
+Variable rk : var -> nat.
+Hypothesis rk_var : forall x y, lookupv (settled w) x = Some (VVar y) -> (rk y < rk x)%nat.
+Hypothesis rk_poly : forall x p y, lookupv (settled w) x = Some (VPoly p) -> In y (vars p) -> (rk y < rk x)%nat.
+
+(* the consistent assignment that extends arbitrary values of the unsettled variables *)
+Fixpoint ext (n : nat) (rho0 : var -> Z) (x : var) : Z :=
+  match n with
+  | O => rho0 x
+  | S m => match lookupv (settled w) x with
+           | None => rho0 x
+           | Some (VVar y) => ext m rho0 y
+           | Some (VPoly q) => eval q (ext m rho0)
+           end
+  end.
+
+Lemma ext_stable rho0 : forall n m x, (rk x < n)%nat -> (rk x < m)%nat -> ext n rho0 x = ext m rho0 x.
+Proof.
+  induction n as [|n IH]; intros m x Hn Hm; [lia|]. destruct m as [|m]; [lia|]. simpl.
+  destruct (lookupv (settled w) x) as [[q|y]|] eqn:E; [| |reflexivity].
+  - apply eval_agree. intros z Hz. pose proof (rk_poly x q z E Hz). apply IH; lia.
+  - pose proof (rk_var x y E). apply IH; lia.
+Qed.
+
+Definition extend (rho0 : var -> Z) : var -> Z := fun x => ext (S (rk x)) rho0 x.
+
+Lemma extend_agrees rho0 : wagrees w (extend rho0).
+Proof.
+  intros x v E. unfold extend at 2. simpl. rewrite E. destruct v as [q|y]; simpl.
+  - apply eval_agree. intros z Hz. pose proof (rk_poly x q z E Hz). unfold extend. apply ext_stable; lia.
+  - pose proof (rk_var x y E). unfold extend. apply ext_stable; lia.
+Qed.
+
+Lemma extend_unsettled rho0 z : lookupv (settled w) z = None -> extend rho0 z = rho0 z.
+Proof. intros E. unfold extend. simpl. rewrite E. reflexivity. Qed.
+
+Theorem substitute_semantically_complete p c :
+  awaiting w = [] ->
+  (forall y, In y (vars p) -> (rk y < sub_fuel w)%nat) ->
+  (forall rho, wagrees w rho -> eval p rho = c) ->
+  is_const (fst (substitute w p)) = true.
+Proof.
+  intros Ha Hp Hc. apply is_const_complete; [apply wf_substitute|].
+  assert (G : forall rho0, eval (fst (substitute w p)) rho0 = c).
+  { intros rho0. rewrite <- (Hc (extend rho0) (extend_agrees rho0)).
+    rewrite <- (substitute_sound w (extend rho0) p (extend_agrees rho0)).
+    apply eval_agree. intros z Hz. symmetry. apply extend_unsettled.
+    exact (substitute_complete_quiet w rk rk_var rk_poly p Ha Hp z Hz). }
+  intros rho rho'. rewrite !G. reflexivity.
+Qed.
+End Semantic.
